@@ -144,14 +144,19 @@ def check_run(res: Result, sc, run, d, stem: str, ref_t, warm: bool = False) -> 
         ivars = {k: t for k, t in out["ivars"].items() if k not in ("lon", "lat")}
         if layout == "dense":
             ivars.pop("pid", None)
+        # deaths between records: the living count drops inside a tracker or an IBM call
         deaths = 0
+        for a_lab, b_lab in (("tracker.pre", "tracker.post"), ("ibm.pre", "ibm.post")):
+            A, B = rec.snap_by_step(a_lab), rec.snap_by_step(b_lab)
+            for st in A:
+                if st in B and A[st]["vars"]["alive"].sum() > B[st]["vars"]["alive"].sum():
+                    deaths += 1
         empty = 0
         last_of_file: dict[int, int] = {}
         for k, (snap, r) in enumerate(zip(writes, R.recs)):
             last_of_file[r["file"]] = k
             alive = snap["vars"]["alive"].astype(bool)
             pid = snap["vars"]["pid"][alive]
-            deaths += int((~alive).sum())
             empty += int(alive.sum() == 0)
             f = R.files[r["file"]]
             for key in sorted(r["data"]):
